@@ -23,6 +23,7 @@ import (
 	"reflect"
 	"strconv"
 	"strings"
+	"time"
 	"unicode/utf8"
 	"unsafe"
 )
@@ -48,6 +49,7 @@ func vLoadReplay(path string) error {
 	vDoc = vReplayDoc{}
 	vNameCount = map[string]int{}
 	vFailures = nil
+	vEcdsaCalls = 0
 	d := json.NewDecoder(bytes.NewReader(b))
 	d.UseNumber()
 	return d.Decode(&vDoc)
@@ -288,11 +290,53 @@ func vECKeyValid(name string, c elliptic.Curve) *ecdsa.PrivateKey {
 // vEcdsaSign: the signing primitive (arbitrary (r,s) in [1,N-1]^2 that the
 // primitive accepts for the solver; crypto/ecdsa natively).
 func vEcdsaSign(key *ecdsa.PrivateKey, digest []byte) (*big.Int, *big.Int) {
-	r, s, err := ecdsa.Sign(vZeroReader{}, key, digest)
-	if err != nil {
-		panic(err)
+	// The solver's counterexample may need (r, s) of particular byte lengths
+	// (leading zero bytes). The primitive cannot be told which (r, s) to
+	// produce, so the replay searches nonces until the lengths match the model's
+	// (bounded: ~2^16 tries are needed for one leading zero byte in both).
+	n := vEcdsaCalls
+	vEcdsaCalls++
+	suffix := ""
+	if n > 0 {
+		suffix = fmt.Sprintf("#%d", n)
 	}
-	return r, s
+	wantR, okR := vDoc.Values["env.ecdsa.r"+suffix]
+	wantS, okS := vDoc.Values["env.ecdsa.s"+suffix]
+	lenOf := func(v interface{}) int { return len(vToBig(v).Bytes()) }
+	full := (key.Curve.Params().N.BitLen() + 7) / 8
+	needSearch := okR && okS && (lenOf(wantR) < full || lenOf(wantS) < full)
+	deadline := time.Now().Add(40 * time.Second)
+	for try := uint64(0); ; try++ {
+		r, s, err := ecdsa.Sign(&vSeedReader{seed: try}, key, digest)
+		if err != nil {
+			panic(err)
+		}
+		if !needSearch || (len(r.Bytes()) == lenOf(wantR) && len(s.Bytes()) == lenOf(wantS)) {
+			return r, s
+		}
+		if try > 2_000_000 || time.Now().After(deadline) {
+			fmt.Printf("VERIF-REPLAY-NOTE ecdsa nonce search gave up after %d tries\n", try)
+			return r, s
+		}
+	}
+}
+
+var vEcdsaCalls int
+
+// vSeedReader: a deterministic byte stream per seed
+type vSeedReader struct {
+	seed uint64
+	ctr  uint64
+}
+
+func (r *vSeedReader) Read(p []byte) (int, error) {
+	for i := range p {
+		r.ctr++
+		x := r.seed*0x9E3779B97F4A7C15 + r.ctr*0xBF58476D1CE4E5B9
+		x ^= x >> 31
+		p[i] = byte(x >> 24)
+	}
+	return len(p), nil
 }
 
 type vZeroReader struct{}
